@@ -32,7 +32,7 @@ def normalise_loop(body):
 
 class C10(PropBase):
     pid = "C10"
-    coq_dirs = ["Base", "C09", "C10"]
+    coq_dirs = ["Base", "C08", "C11", "C09", "C10"]
     translators = []
     bins = ["c10"]
     impl_timeout = 600
